@@ -54,6 +54,12 @@ class C06(Prop):
             post = []
             if late: post.append(r.choice(['(protected %s)' % hdr(), '(unprotected %s)' % hdr()]))
             elif r.random() < 0.4: post.append('(unprotected %s)' % hdr())
+            # calls that do not enter the structure may come before or after the creating call, in any order (seeded C06-r5: the
+            # context of COSE_Mac chosen from the number of recipients present when the tag is created)
+            if fam in ('CoseMacBuilder', 'CoseEncryptBuilder', 'CoseRecipientBuilder'):
+                if r.random() < 0.35: post.append('(add_recipient %s)' % g.rcp(0))
+                if r.random() < 0.25: pre.insert(r.randrange(len(pre) + 1), '(add_recipient %s)' % g.rcp(0))
+            if fam == 'CoseSignBuilder' and r.random() < 0.3: post.append('(add_signature (sig (ph - %s) %s b0909))' % (hdr(), C02.EMPTY))
             meta['late_prot'] = any(p.startswith('(protected') for p in post)
             ops.append(mk('flow %s %s (ops %s %s%s) %s' % (fam, tagged, ' '.join(pre), cr, (' ' + ' '.join(post)) if post else '', chk), **meta))
         return ops
